@@ -101,13 +101,17 @@ func c05Run(r *Run) {
 		var deferred []*ast.FuncLit
 		var walkBody func(body *ast.BlockStmt, entry *finState, endPos token.Pos, onExit func(s *finState, p token.Pos))
 		walkBody = func(body *ast.BlockStmt, entry *finState, endPos token.Pos, onExit func(s *finState, p token.Pos)) {
-			finRanges := map[*ast.RangeStmt]bool{}
+			finRanges := map[ast.Stmt]bool{}
 			ast.Inspect(body, func(n ast.Node) bool {
 				if _, ok := n.(*ast.FuncLit); ok && n != ast.Node(body) {
 					return false
 				}
 				if rs, ok := n.(*ast.RangeStmt); ok && fieldOf(rs.X) == fFinally {
 					finRanges[rs] = true
+				}
+				// for i := 0; i < len(t.FinallyBlock); i++ { t.FinallyBlock[i]… }
+				if fs, ok := n.(*ast.ForStmt); ok && fs.Cond != nil && c05IndexLoopOver(fs, fieldOf, fFinally) {
+					finRanges[fs] = true
 				}
 				return true
 			})
@@ -232,8 +236,8 @@ func c05Run(r *Run) {
 				return s
 			}
 			h.Node = func(stm ast.Stmt, st State) {
-				if rs, ok := stm.(*ast.RangeStmt); ok && finRanges[rs] {
-					pass(st.(*finState), rs.Pos())
+				if finRanges[stm] {
+					pass(st.(*finState), stm.Pos())
 				}
 			}
 			h.Return = func(rs *ast.ReturnStmt, st State) { onExit(st.(*finState), rs.Pos()) }
@@ -442,6 +446,55 @@ func c05Run(r *Run) {
 			r.ok(ck+"#first-match", catchRange.Pos(), "a matching clause leaves the dispatch loop on every path (no later clause can run)")
 		} else {
 			r.bad(ck+"#first-match", matchedAtHead, "after a catch clause matched, the loop can continue to a later clause")
+		}
+		if !boundSeen {
+			// the dispatch loop only selects the clause: the function that receives the selected clause binds
+			for cfn, cfd := range methods {
+				_ = cfn
+				if cfd == catchFn {
+					continue
+				}
+				callsDispatch := false
+				ast.Inspect(cfd.Body, func(n ast.Node) bool {
+					if c, ok := n.(*ast.CallExpr); ok {
+						if cal, ok := calleeOf(info, c).(*types.Func); ok && methods[cal] == catchFn {
+							callsDispatch = true
+						}
+					}
+					return true
+				})
+				if !callsDispatch {
+					continue
+				}
+				als := map[types.Object]bool{}
+				for _, p := range cfd.Type.Params.List {
+					for _, n := range p.Names {
+						if isNamed(info.TypeOf(p.Type), modPath+"/data", "Control") {
+							als[info.Defs[n]] = true
+						}
+					}
+				}
+				ast.Inspect(cfd.Body, func(n ast.Node) bool {
+					c, ok := n.(*ast.CallExpr)
+					if !ok || len(c.Args) != 2 {
+						return true
+					}
+					cal, ok := calleeOf(info, c).(*types.Func)
+					if !ok || (cal.Name() != "SetVariableValue" && cal.Name() != "SetValue") {
+						return true
+					}
+					if fv := fieldOf(c.Args[0]); fv == nil || fv.Name() != "Variable" {
+						return true
+					}
+					boundSeen = true
+					boundPos = c.Pos()
+					id, isId := ast.Unparen(c.Args[1]).(*ast.Ident)
+					if !isId || !als[info.Uses[id]] {
+						boundOK = false
+					}
+					return true
+				})
+			}
 		}
 		if !boundSeen {
 			r.bad(ck+"#bind", catchRange.Pos(), "the matching branch never stores the thrown value into the catch variable")
@@ -695,4 +748,27 @@ func c05DefaultHandler(r *Run, rp *packages.Package) {
 	if !found {
 		r.fail("the VM constructor no longer installs a default func(data.Control) handler")
 	}
+}
+
+// c05IndexLoopOver: `for i := …; i < len(x.F); i++ { … x.F[i] … }` over the given field.
+func c05IndexLoopOver(fs *ast.ForStmt, fieldOf func(ast.Expr) *types.Var, f *types.Var) bool {
+	be, ok := ast.Unparen(fs.Cond).(*ast.BinaryExpr)
+	if !ok || (be.Op != token.LSS && be.Op != token.NEQ) {
+		return false
+	}
+	c, ok := ast.Unparen(be.Y).(*ast.CallExpr)
+	if !ok || len(c.Args) != 1 {
+		return false
+	}
+	if id, ok := ast.Unparen(c.Fun).(*ast.Ident); !ok || id.Name != "len" || fieldOf(c.Args[0]) != f {
+		return false
+	}
+	indexed := false
+	ast.Inspect(fs.Body, func(n ast.Node) bool {
+		if ix, ok := n.(*ast.IndexExpr); ok && fieldOf(ix.X) == f {
+			indexed = true
+		}
+		return true
+	})
+	return indexed
 }
